@@ -119,6 +119,16 @@ def print_axioms(prop_file: str, timeout=900) -> tuple[bool, dict[str, list[str]
     return ok, ax, out
 
 
+def leanchecker(prop_file: str, timeout=1500) -> tuple[bool, str]:
+    """independent re-check of the compiled property module (and what it imports) by the toolchain's leanchecker"""
+    mod = prop_file.removesuffix(".lean").replace("/", ".")
+    try:
+        r = subprocess.run(["lake", "env", "leanchecker", mod], cwd=LEAN, capture_output=True, text=True, timeout=timeout)
+    except (subprocess.TimeoutExpired, FileNotFoundError) as e:
+        return False, f"leanchecker: {type(e).__name__}"
+    return r.returncode == 0, (r.stdout + r.stderr)[-2000:]
+
+
 @dataclass
 class ProofStatus:
     ok: bool
